@@ -18,7 +18,10 @@ from . import c20
 
 
 def cps(s):
-    """Option(str) -> [] or [[code points]]"""
+    """Option(str) -> [] or [[code points]]; texts over 2000 characters are shipped as length + SHA-1 (the clause compares for equality)"""
+    if s is not None and len(s) > 2000:
+        import hashlib
+        s = f'#long:{len(s)}:{hashlib.sha1(s.encode("utf-8", "surrogatepass")).hexdigest()}'
     return [] if s is None else [[ord(c) for c in s]]
 
 
@@ -40,7 +43,7 @@ def content(coll, ids, meta):
                 ids=[str(int(i)) for i in ids] if kind == 'int' else [[ord(c) for c in str(i)] for i in ids], ids_kind=kind if ids else 'none',
                 meta=dict(id=cps(meta.id), name=cps(meta.name), version=cps(meta.version), id_attr=cps(meta.id_attr),
                           description=cps(meta.description),
-                          extra=[] if meta.extra is None else [[ord(c) for c in json.dumps(meta.extra, sort_keys=True)]]),
+                          extra=cps(None if meta.extra is None else json.dumps(meta.extra, sort_keys=True))),
                 items=[item_repr(s) for s in coll])
 
 
@@ -51,6 +54,15 @@ METAS = {
     'unicode': dict(id='sét/1', name='名前 ✓', version='1.0.post1', id_attr='refseq_acc', description='line1\nline2, "quoted" ü', extra=dict(author='Zoë', revision=dict(num=3, date='2024-01-01'), nested=[1, [2, {'x': None}], 'é'])),
     'ascii': dict(id='set1', name='n', version='0.1', id_attr='key', description='d', extra=dict(a=1)),
 }
+# metadata of the sizes a real reference set carries (per-genome provenance, change logs): the 64 KiB object-header limit of HDF5 lies inside
+BIG_METAS = {
+    'extra-70k': dict(id='big/1', name='big', extra=dict(genomes=[dict(acc=f'GCF_{i:09d}.1', src='refseq', note='x' * 20) for i in range(1000)])),
+    'extra-400k-unicode': dict(id='big/2', extra=dict(log=['é✓ ' * 40] * 1200, n=1)),
+    'description-200k': dict(id='big/3', description='line ü\n' * 30000, extra={}),
+    'name-and-version-70k': dict(id='i' * 70000, name='n' * 70000, version='v' * 70000, id_attr='a' * 70000),
+    'extra-65k-edge': dict(extra=dict(t='y' * 65500)),
+}
+METAS.update(BIG_METAS)
 IDS = {
     'default': lambda n: None,
     'ints': lambda n: [7 * i + 3 for i in range(n)],
@@ -112,7 +124,7 @@ class RoundTrip(core.Family):
         self.rule = ('collections with k in {1,4,5,8,9,16,17,32} (all four index widths; values 0, 4^k-1 and random), prefix length 1..13, '
                      '1..6 signatures incl. all-empty and alternating-empty, containers array / list / zero-copy window (bounds[0] != 0) / annotated wrapper of each, ids '
                      '{default, ints, 2^62+i, ASCII, Unicode, with empty string, NumPy U / int32 / uint8 arrays, uint64 arrays with values >= 2^63, int64 arrays with negative values, tuple}, metadata {default, all None, empty strings, Unicode with '
-                     'nested extra, ASCII}, compression {none, gzip 0/1/9, lzf}, widened dtype; dump_signatures -> load_signatures; plus '
+                     'nested extra, ASCII, and texts / nested extra of 65-400 kB}, compression {none, gzip 0/1/9, lzf}, widened dtype; dump_signatures -> load_signatures; plus '
                      'indexing of the loaded file with ints, slices, index lists and masks; non-trivial = >= 2 signatures, not all empty')
         ks = [1, 4, 5, 8, 9, 16, 17, 32]
         conts = ['array', 'list', 'annotated-array', 'annotated-list', 'window', 'annotated-window']
@@ -126,6 +138,8 @@ class RoundTrip(core.Family):
                             continue
                         for mk in METAS:
                             if not cont.startswith('annotated') and mk != 'default':
+                                continue
+                            if mk in BIG_METAS and not (idk == 'ascii' and k in (4, 17) and rep == 0):
                                 continue
                             c += 1
                             if k >= 16 and c % 9 == 0:
